@@ -782,10 +782,15 @@ func (s *httpServer) doConfig(w http.ResponseWriter, req *http.Request, ps httpr
 		opts := *s.nsqadmin.getOpts()
 		switch opt {
 		case "nsqlookupd_http_addresses":
-			err := json.Unmarshal(body, &opts.NSQLookupdHTTPAddresses)
+			// decode into a fresh slice: opts is a shallow copy, and decoding into its
+			// slice overwrites the elements of the list that is in use - also when the
+			// value turns out to be invalid and the request is refused
+			var addrs []string
+			err := json.Unmarshal(body, &addrs)
 			if err != nil {
 				return nil, http_api.Err{400, "INVALID_VALUE"}
 			}
+			opts.NSQLookupdHTTPAddresses = addrs
 		case "log_level":
 			logLevelStr := string(body)
 			logLevel, err := lg.ParseLogLevel(logLevelStr)
